@@ -117,6 +117,7 @@ type pathCtx struct {
 	globalCells map[*value]string
 	locks       map[*value]bool
 	rlocks      map[*value]int
+	wwait       map[*value]int
 	os          *osState
 	uniq        map[int32]uniqRes
 }
